@@ -43,6 +43,9 @@ type Conn struct {
 	ctype   phase.ConnectionType
 	// Hook, if set, runs inside every write while the recorder's lock is NOT held (schedule probes).
 	Hook func(w Write)
+	// Gate, if set, makes WritePacket/BufferPacket wait until it is closed BEFORE the packet is looked
+	// at: like a real connection, the bytes are serialised at the moment the write actually happens.
+	Gate <-chan struct{}
 }
 
 var ErrWrite = errors.New("recording conn: write failure requested by the case")
@@ -82,6 +85,9 @@ func (c *Conn) CloseCount() int {
 }
 
 func (c *Conn) packet(p proto.Packet) error {
+	if g := c.Gate; g != nil {
+		<-g
+	}
 	ok := !c.FailWrite
 	if m, is := p.(*plugin.Message); is {
 		c.record(Write{Kind: "pkt", OK: ok, Channel: m.Channel, Data: append([]byte(nil), m.Data...)})
